@@ -274,6 +274,9 @@ func (r *Run) Finish() {
 			Harness("evidence key %q not set by check %s", k, r.ID)
 		}
 	}
+	if r.assumptions == nil {
+		r.assumptions = []string{}
+	}
 	out := map[string]any{
 		"property_id": r.ID, "tier": r.Tier, "seed": r.Seed, "level": r.Level,
 		"coverage": cov, "assumptions": r.assumptions,
